@@ -70,6 +70,7 @@ LEAFSETS = [LEAVES,
 LENGTH_APIS = ('visualize.trim_long_fields', 'graphviz.render(max_str_length)',
                'as_str_flattened', 'graphviz.render', 'repr')
 MUT_MENU = ['cfgmut', 'cfg', 'list2', 'dict1', 'tv', 'list0', 'dict0']
+IMM_MENU = ['cfgimm', 'cfg', 'list2']
 NCHUNK = 48
 
 
@@ -101,13 +102,20 @@ def all_cases(b):
                              root_kinds=['cfgmut', 'cfg']):
     if any(k in ('cfgmut', 'tv') for k, _ in s):
       yield 'mut', s, 'none'
+  # a callable registered as returning an immutable value
+  for s in shapes.all_shapes(shapes.std_kinds(IMM_MENU), 2, 2,
+                             root_kinds=['cfgimm', 'cfg']):
+    if any(k == 'cfgimm' for k, _ in s):
+      for tagv in ('none', 'tags'):
+        yield 'imm', s, tagv
 
 
 _BY = {}
 
 
 def make(menu_name, shape, tagv, b, leafset=0):
-  menu = {'main': MENU, 'mut': MUT_MENU}.get(menu_name) or b['small_menu']
+  menu = {'main': MENU, 'mut': MUT_MENU, 'imm': IMM_MENU}.get(
+      menu_name) or b['small_menu']
   key = tuple(menu)
   if key not in _BY:
     _BY[key] = {k.name: k for k in shapes.std_kinds(menu)}
@@ -306,6 +314,12 @@ def api_table():
       n: 'NEW' for n in _named(c)[:1]})
   t['deepcopy_with'] = lambda c, o: fdl.deepcopy_with(c, **{
       n: 'NEW' for n in _named(c)[:1]})
+  t['deepcopy_with(last)'] = lambda c, o: fdl.deepcopy_with(c, **{
+      n: 'NEW' for n in _named(c)[-1:]})
+  t['deepcopy_with(tagged value)'] = lambda c, o: fdl.deepcopy_with(c, **{
+      n: N.TagD.new('NEW') for n in _named(c)[:1]})
+  t['copy_with(tagged value)'] = lambda c, o: fdl.copy_with(c, **{
+      n: N.TagD.new('NEW') for n in _named(c)[-1:]})
   t['copy.copy'] = lambda c, o: copy.copy(c)
   t['copy.deepcopy'] = lambda c, o: copy.deepcopy(c)
   t['pickle'] = lambda c, o: pickle.loads(pickle.dumps(c))
@@ -317,6 +331,54 @@ def api_table():
   t['convert_dataclasses_to_configs'] = (
       lambda c, o: fdl_dc.convert_dataclasses_to_configs(c, allow_post_init=True))
   return t
+
+
+COPY_APIS = {'cast', 'copy_with', 'deepcopy_with', 'deepcopy_with(last)',
+             'deepcopy_with(tagged value)', 'copy_with(tagged value)',
+             'copy.copy', 'copy.deepcopy', 'pickle'}
+DEEP_COPY_APIS = {'deepcopy_with', 'deepcopy_with(last)',
+                  'deepcopy_with(tagged value)', 'copy.deepcopy', 'pickle'}
+
+
+def post_edit(out, deep):
+  names = _named(out)
+  for n in names:
+    fdl.add_tag(out, n, N.TagD)
+  if names:
+    setattr(out, names[0], 'POST-EDIT')
+    fdl.clear_tags(out, names[-1])
+  if not deep:
+    return
+  seen = set()
+
+  def walk(v, top):
+    if id(v) in seen:
+      return
+    seen.add(id(v))
+    if isinstance(v, fdl.Buildable):
+      children = list(v.__arguments__.values())
+      if not top:
+        ns = _named(v)
+        if ns:
+          fdl.add_tag(v, ns[0], N.TagD)
+          setattr(v, ns[-1], 'POST-EDIT-NESTED')
+      for a in children:
+        walk(a, False)
+    elif isinstance(v, list):
+      children = list(v)
+      v.append('POST-EDIT-APPENDED')
+      for a in children:
+        walk(a, False)
+    elif isinstance(v, dict):
+      children = list(v.values())
+      v['POST-EDIT-KEY'] = 1
+      for a in children:
+        walk(a, False)
+    elif isinstance(v, tuple):
+      for a in v:
+        walk(a, False)
+
+  walk(out, True)
 
 
 API = None
@@ -364,6 +426,20 @@ def _check_case(menu_name, shape, tagv, b, res, only, leafset):
       res.violation(
           f'C17/input-identity-or-history-changed/{name}',
           f'{case}: {diff[:2]}', case)
+    elif (outcome == 'ok' and name in COPY_APIS and
+          isinstance(out, fdl.Buildable) and out is not cfg):
+      # what a copy-returning API hands back can be edited without the
+      # input noticing: top-level arguments and tags for every such API,
+      # everything reachable for the deep-copying ones
+      try:
+        post_edit(out, deep=name in DEEP_COPY_APIS)
+      except Exception:  # pylint: disable=broad-except
+        pass
+      res.transitions += 1
+      if canon.canon_cfg(cfg) != before_c or snapshot(cfg) != before_s:
+        res.violation(
+            f'C17/editing-the-returned-copy-changed-the-input/{name}',
+            f'{case}: input now {cfg!r}', case)
 
 
 def run_unit(unit, tier, seed):
